@@ -29,6 +29,9 @@ Verdict(o) ==
   ELSE LET want == B(SemEqual(o.sa, o.sb)) IN
        IF o.ab = want /\ o.ba = want /\ o.aa = "true"
           /\ (o.enum = "na" \/ (o.enum = "dup") = SemEqual(o.sa, o.sb))
+          \* the enum [a, m, b] with a third value m between the two: a repeated value is found
+          \* wherever it stands (m with repeated member names has no fixed denotation: not judged)
+          /\ (o.enum3 \in {"na", "err"} \/ HasDup(o.sm) \/ (o.enum3 = "dup") = (SemEqual(o.sa, o.sb) \/ SemEqual(o.sa, o.sm) \/ SemEqual(o.sm, o.sb)))
           \* gen/reduce.go: two default responses that differ only in a numeric bound are
           \* one response exactly when the two bounds are the same number
           /\ (o.red \in {"na", "err"} \/ (o.red = "folded") = SemEqual(o.sa, o.sb))
